@@ -18,5 +18,5 @@ fi
 [ "$1" = "--" ] && shift
 ( cd "$scratch" && diff -ru /repo/func_adl_xAOD func_adl_xAOD | grep -E '^[+-]' | grep -vE '^(\+\+\+|---)' | head -8 )
 cd "$here"
-VERIF_REPO="$scratch" ./check "$@"
+VERIF_EVIDENCE_DIR="$here/out/mutant-evidence" VERIF_REPO="$scratch" ./check "$@"
 echo "exit=$?"
